@@ -501,3 +501,38 @@ def scan(model: Model, keep_module) -> Tuple[List[Slip], int]:
             out.extend(gen(f))
         out.extend(none_conflated(model, f))
     return out, n
+
+
+# ---------------------------------------------------------------------------------------------------------------------
+_SELF_CHECKED = [False]
+
+
+def self_check():
+    """Every lint fires on its positive example and is silent on the negative twin (qcolint/pylints_examples.py); raises AnalysisError otherwise."""
+    if _SELF_CHECKED[0]:
+        return
+    import os
+    import tempfile
+    from .model import AnalysisError
+    from .pylints_examples import EXAMPLES
+    problems = []
+    with tempfile.TemporaryDirectory(prefix="qcolint_py_") as tmp:
+        pkg = os.path.join(tmp, "qce_circuit")
+        os.makedirs(pkg)
+        open(os.path.join(pkg, "__init__.py"), "w").close()
+        for kind, ex in EXAMPLES.items():
+            for pol in ("positive", "negative"):
+                with open(os.path.join(pkg, f"{kind.lower()}_{pol}.py"), "w") as fh:
+                    fh.write(ex[pol])
+        model = Model(tmp)
+        slips, _n = scan(model, lambda mod: True)
+        for kind in EXAMPLES:
+            pos = [s_ for s_ in slips if s_.kind == kind and s_.fn.module.relpath.endswith(f"{kind.lower()}_positive.py")]
+            neg = [s_ for s_ in slips if s_.fn.module.relpath.endswith(f"{kind.lower()}_negative.py")]
+            if not pos:
+                problems.append(f"{kind} does not fire on its positive example")
+            if neg:
+                problems.append(f"{kind} example twin: {neg[0].kind} fires on the negative example ({neg[0].what[:80]})")
+    if problems:
+        raise AnalysisError("data-model lints failed their self-check: " + "; ".join(problems))
+    _SELF_CHECKED[0] = True
